@@ -2,7 +2,7 @@
 EXTENDS Trust, Json, IOUtils
 VARIABLES pc, cfg, in, out
 vars == <<pc, cfg, in, out>>
-None == [res |-> "pending", flag |-> FALSE]
+None == [res |-> "pending", flag |-> FALSE, n |-> 0]
 Init == /\ pc = "Verify" /\ out = None
         /\ cfg \in Cfgs /\ in \in { i \in Inputs : InputOK(i) }
 \* Validate(el): certificate, value, digest (one step: it is one library call)
